@@ -10,11 +10,11 @@ func init() {
 	core.Register(&core.Prop{
 		ID:    "C04",
 		Level: "exploration",
-		Rule: "case = seeded random walk (1-60 ops, 5% 100-400) over {Add, AddWithCount, AddBin, MergeWith(any of 5 kinds), Copy-and-continue, Clear, Reweight, Encode->Decode, ToProto->MergeWithProto (at once, or the message kept and merged some events later)} " +
+		Rule: "case = seeded random walk (1-60 ops, 5% 100-400) over {Add, AddWithCount, AddBin, MergeWith(any of 5 kinds), Copy-and-continue, Clear, Reweight, Encode->Decode, ToProto->MergeWithProto (at once, or the message kept and merged some events later - up to three times, also into a cleared or new store that then goes on in place), hand-written blocks in the three documented bin layouts with signed deltas, negative/zero strides and repeated indexes decoded into the live store} " +
 			"on a dense/sparse/paginated store with dyadic weights under an exactness budget, indexes clustered/near/page-aligned/growth-aligned/far around a window centre anywhere in int32, after a directed prefix; " +
 			"every observer is compared with the exact index->weight map after every event (half of the walks), or - quiet walks - after 30% / 5% of the events and for every store alive at the end, so that sequences of events with no query in between are reached too. Non-trivial = >=3 distinct operation kinds and >=1 internal layout event seen through the hook; distinct = hash of (store kind, centre, length, PRNG state).",
 		Cases:     core.Scale(24000, 600000),
-		Mandatory: []string{"oracle.store_checks", "oracle.rank_probes_on_boundary", "layout.any", "event.MergeWith", "event.Reweight", "event.Decode", "event.Clear", "event.Copy", "quiet.histories", "quiet.events_without_query", "proto.kept_message_consumed_later"},
+		Mandatory: []string{"oracle.store_checks", "oracle.rank_probes_on_boundary", "layout.any", "event.MergeWith", "event.Reweight", "event.Decode", "event.Clear", "event.Copy", "quiet.histories", "quiet.events_without_query", "proto.kept_message_consumed_later", "proto.kept_message_consumed_again", "proto.kept_message_into_empty_receiver", "decode_block.stride.negative", "decode_block.positive.index_deltas", "decode_block.positive.index_deltas_and_counts"},
 		Assumptions: []string{
 			"weights are dyadic and budgeted so that float arithmetic is exact; arbitrary weights are not covered here",
 			"KeyAtRank on an empty store, and the order of Bins(), are unspecified and not checked",
@@ -40,7 +40,7 @@ func init() {
 			"every observer compared after every event with the fold model (exact content with indexes beyond the edge folded into the edge bin), plus #bins<=N, span<=N and (hook) allocated length<=N; " +
 			"sketch level: collapsing sketches on inputs wider than N, quantiles checked against the alpha bound when the true bin is retained, else against the edge bin. Non-trivial = a collapse happened (model folded weight); distinct = hash of (kind, N, centre, length, PRNG state).",
 		Cases:     core.Scale(80000, 2000000),
-		Mandatory: []string{"oracle.store_checks", "oracle.bound_checks", "layout.collapse", "merge.wide_into_empty_bounded_receiver", "sketch.queries_retained", "sketch.queries_collapsed", "quiet.histories"},
+		Mandatory: []string{"oracle.store_checks", "oracle.bound_checks", "layout.collapse", "merge.wide_into_empty_bounded_receiver", "sketch.queries_retained", "sketch.queries_collapsed", "quiet.histories", "decode_block.stride.negative"},
 		Assumptions: []string{
 			"weights are dyadic and budgeted so that float arithmetic is exact",
 			"N >= 1",
